@@ -56,6 +56,8 @@ type SSOCase struct {
 	// provider lookup fails in that way ("" = it does not)
 	FaultKind   string `json:"fault_kind,omitempty"`
 	LookupFault string `json:"lookup_fault,omitempty"`
+	// PersistDelayMs: the storage takes that long to persist the request (it succeeds)
+	PersistDelayMs int `json:"persist_delay_ms,omitempty"`
 }
 
 func (c SSOCase) hasDefect(name string) bool {
